@@ -18,6 +18,8 @@ def main():
     engines, props = {}, {}
     d = os.path.join(VERIF, "registry.d")
     for fn in sorted(os.listdir(d)):
+        if fn in static.get("pending_fragments", []):
+            continue  # engine still being integrated: its hooks are not in /repo yet
         if fn.endswith(".json"):
             r = json.load(open(os.path.join(d, fn)))
             engines.update(r.get("engines", {}))
